@@ -604,6 +604,31 @@ func genCodec(o *Out, r *Rng, n int, tier string) {
 				prev = pn.Enc()
 			}
 		}
+		if r.Chance(12) {
+			// arity sweep: the elements of a well-formed mode message, cut or extended to 0..7 (and 15..17) elements,
+			// always followed by another complete message so that reading short or past the end shows
+			mty := codecTypes[r.Intn(4)]
+			mn := genMsgNode(r, mty, tier, false)
+			extras := []*Node{nNil(), nMap(), nInt(1), nStr([]byte("x")), nArr(nNil()), nNil()}
+			k := r.Intn(8)
+			if r.Chance(10) {
+				k = 15 + r.Intn(3)
+			}
+			el := append([]*Node{}, mn.A...)
+			for len(el) < k {
+				el = append(el, extras[r.Intn(len(extras))])
+			}
+			if r.Chance(50) && len(el) >= 4 {
+				el[len(mn.A)-1] = nNil() // the options position holds nil
+				if len(mn.A) < 4 && (mty == "Message" || mty == "MessageExt") && len(el) >= 4 {
+					el[3] = nNil()
+				}
+			}
+			el = el[:k]
+			follow, _ := genGoMsg(r, mty, tier).MarshalMsg(nil)
+			emitDec(o, r, "C13", mty, "m", append(nArr(el...).Enc(), follow...), prev)
+			continue
+		}
 		switch r.Intn(4) {
 		case 0:
 			emitDec(o, r, "C13", ty, "v", v, prev)
